@@ -109,8 +109,17 @@ where
     let use_tp = c.trusted && cx.tp.is_some();
     let tp = cx.tp.as_ref();
 
+    // every second case: each step of the flow is preceded by a call the CL03 code refuses (on CL1024 objects of
+    // its own), so that whatever an error path leaves behind on the thread meets the next honest step
+    let interject = |step: u64| {
+        if c.seed % 2 == 0 {
+            rep.class(&format!("refused-call-before-step:{}", cl_refused_call((c.seed as u64 >> 1) + 3 * step)));
+        }
+    };
+    interject(0);
     let commitment = Commitment::<CL03<CS>>::commit_with_pk(&msgs, pk, &bases, Some(&hidden));
     let cc = commitment.cl03Commitment().clone();
+    interject(1);
     let trusted_c = if use_tp { Some(Commitment::<CL03<CS>>::commit_with_commitment_pk(&msgs, tp.unwrap(), Some(&hidden)).cl03Commitment().clone()) } else { None };
     let cpk = if use_tp { tp } else { None };
 
@@ -123,6 +132,7 @@ where
     let t_issuer = trusted_c.as_ref().map(|t| CL03Commitment { value: t.value.clone(), randomness: Integer::new() });
 
     // ---- positive ------------------------------------------------------------------------------
+    interject(2);
     rep.eval(ck, 1);
     match catch(|| zk.verify_proof(&c_issuer, t_issuer.as_ref(), pk, &bases, cpk, &hidden)) {
         Ok(true) => {}
@@ -157,6 +167,7 @@ where
     let pk_w = through_json!(CL03PublicKey, &key.pk, "issuer public key");
     let sk_w = through_json!(CL03SecretKey, &key.sk, "issuer secret key");
     let key_w = ClKey { suite: key.suite, pk: pk_w.unwrap_or_else(|| key.pk.clone()), sk: sk_w.unwrap_or_else(|| key.sk.clone()), id: key.id.clone(), origin: key.origin };
+    interject(3);
     let bsig0 = match try_blind_sign::<CS>(&key_w, bases_w.as_ref().unwrap_or(&bases), zk_w.as_ref().unwrap_or(&zk), &revealed, &c_issuer, t_issuer.as_ref(), cpk, &hidden, &revealed_idx) {
         Some(s) => s,
         None => return rep.fail(ck, "blind-sign-refused-honest-proof", format!("blind_sign refused an honest proof for hidden set {:?} of {} (objects through JSON between the steps: {})", hidden, n, wire), cj(json!(null))),
@@ -173,6 +184,7 @@ where
     } else {
         sig
     };
+    interject(4);
     rep.eval(ck, 1);
     if !sig.verify_multiattr(pk, &bases, &msgs) {
         return rep.fail(ck, "unblinded-signature-rejected", format!("hidden set {:?} of {} (objects through JSON / octets between the steps: {})", hidden, n, wire), cj(json!(null)));
